@@ -822,6 +822,10 @@ class Exec:
         if re.fullmatch(r'<\w+ as (typenum::)?Unsigned>::USIZE', c):
             mm = re.match(r'<(\w+) as', c)
             return s.consts.get(mm.group(1), s.N)
+        mw = re.fullmatch(r'<(\w+) as (?:typenum::)?Unsigned>::(U8|U16|U32|U64)', c)
+        if mw:      # typenum's narrower constants wrap silently: N mod 2^k
+            val, bits = s.consts.get(mw.group(1), s.N), int(mw.group(2)[1:])
+            return val if bits == 64 else ((val % (1 << bits)) if is_int() else (val & bv((1 << bits) - 1)))
         mm = re.fullmatch(r'<<(\w+) as (?:core::ops::)?(Sub|Add)<(?:typenum::)?(\w+)>>::Output as (?:typenum::)?Unsigned>::USIZE', c)
         if mm:      # type-level difference / sum of two lengths
             val = lambda nm: bv(1) if nm == 'B1' else s.consts.get(nm, s.N)
@@ -981,6 +985,10 @@ class Exec:
                     return with_prov(Slice(v.arr, bv(0), v.arr.len), v.prov)
                 if ml and isinstance(v, Opaque):
                     return Slice(Arr('const', bv(int(ml.group(1)))), bv(0), bv(int(ml.group(1))))
+            if m.group(3) == 'IntToInt' and ty.strip() in ('u8', 'u16', 'u32') and z3.is_expr(v) and not z3.is_bool(v):
+                # a narrowing integer cast truncates (every integer is carried as a 64-bit word; the narrow types keep their range this way)
+                bits = int(ty.strip()[1:])
+                return (v % (1 << bits)) if is_int() else (v & bv((1 << bits) - 1))
             if isinstance(v, ElemPtr) and re.search(r'GenericArray<', ty):
                 nv = with_prov(ElemPtr(v.arr, v.idx, cast=norm(ty)), v.prov)
                 if getattr(v, 'epoch', None) is not None:
